@@ -2,6 +2,7 @@ package storesim
 
 import (
 	"encoding/hex"
+	"encoding/json"
 	"fmt"
 	"math/rand"
 	"net/url"
@@ -13,8 +14,10 @@ import (
 	"time"
 
 	res "github.com/jirenius/go-res"
+	"github.com/jirenius/go-res/logger"
 	"github.com/jirenius/go-res/store"
 	"github.com/jirenius/go-res/store/badgerstore"
+	"github.com/jirenius/go-res/store/mockstore"
 
 	"verif/internal/core"
 )
@@ -531,6 +534,11 @@ func RunC14(c *core.Ctx) {
 			recs = append(recs, r...)
 		}
 	}
+	for h := 0; h < c.Pick(3, 20); h++ {
+		if r := eventListHistory(c, rng, h); r != nil {
+			recs = append(recs, r...)
+		}
+	}
 	core.CheckRecords(c, "TraceIndex", "TraceIndex.cfg", recs, nil, func(i int, r interface{}, inv string) {
 		m := r.(rec)
 		kind := fmt.Sprint(m["kind"])
@@ -553,6 +561,203 @@ func trimRec(m rec) rec {
 			s = s[:300] + "..."
 		}
 		out[k] = s
+	}
+	return out
+}
+
+// eventListHistory: a query store that reports event lists (mockstore) behind store.QueryHandler with the
+// collection transformer. Several clients hold query results - some write the same query in different ways -,
+// ids are added and removed, every client asks on the query event's subject and applies what it is given:
+// it must then hold what a fresh get returns.
+func eventListHistory(c *core.Ctx, rng *rand.Rand, h int) []interface{} {
+	var mu sync.Mutex
+	ids := []string{"b", "d"}
+	query := func(q url.Values) []string {
+		mu.Lock()
+		defer mu.Unlock()
+		out := []string{}
+		for _, id := range ids {
+			if id >= q.Get("from") {
+				out = append(out, id)
+			}
+		}
+		return out
+	}
+	qst := mockstore.NewQueryStore(func(q url.Values) (interface{}, error) { return query(q), nil })
+	s := res.NewService("test")
+	s.SetLogger(logger.NewMemLogger())
+	s.SetWorkerCount(1)
+	s.SetQueryEventDuration(30 * time.Millisecond)
+	s.Handle("items", res.Collection, store.QueryHandler{}.WithQueryStore(qst).
+		WithQueryRequestHandler(func(rname string, _ map[string]string, q url.Values) (url.Values, string, error) {
+			nq := url.Values{"from": {q.Get("from")}, "limit": {q.Get("limit")}}
+			return nq, nq.Encode(), nil
+		}).
+		WithTransformer(store.IDToRIDCollectionTransformer(func(id string) string { return "test.item." + id })))
+	hs, err := serve(s)
+	if err != nil {
+		return nil
+	}
+	defer hs.close()
+	forms := []string{"from=a&limit=10", "limit=10&from=a", "from=c&limit=10", "from=a", "limit=10&from=c"}
+	held := map[string][]string{}
+	refs := func(r rec) []string {
+		out := []string{}
+		if cs, ok := r["c"].([]string); ok {
+			for _, cj := range cs {
+				var ref struct {
+					RID string `json:"rid"`
+				}
+				json.Unmarshal([]byte(cj), &ref)
+				out = append(out, ref.RID)
+			}
+		}
+		return out
+	}
+	for _, f := range forms {
+		r, err := hs.get("test.items?" + f)
+		if err != nil {
+			return nil
+		}
+		held[f] = refs(r)
+	}
+	var out []interface{}
+	pool := []string{"a", "b", "c", "d", "e", "f"}
+	for step := 0; step < 6; step++ {
+		id := pool[rng.Intn(len(pool))]
+		mu.Lock()
+		before := append([]string{}, ids...)
+		present := false
+		for _, x := range ids {
+			if x == id {
+				present = true
+			}
+		}
+		if present {
+			var n []string
+			for _, x := range ids {
+				if x != id {
+					n = append(n, x)
+				}
+			}
+			ids = n
+		} else {
+			ids = append(ids, id)
+			sort.Strings(ids)
+		}
+		mu.Unlock()
+		from := len(hs.conn.Pubs())
+		qc := mockstore.QueryChange{IDValue: id, OnEvents: func(q url.Values) ([]store.ResultEvent, bool, error) {
+			if id < q.Get("from") {
+				return nil, false, nil
+			}
+			idx := 0
+			for _, x := range before {
+				if x >= q.Get("from") && x < id {
+					idx++
+				}
+			}
+			if present {
+				return []store.ResultEvent{{Name: "remove", Idx: idx}}, false, nil
+			}
+			return []store.ResultEvent{{Name: "add", Idx: idx, Value: id}}, false, nil
+		}}
+		if present {
+			qc.BeforeValue = id
+		} else {
+			qc.AfterValue = id
+		}
+		qst.TriggerQueryChange(qc)
+		// the query event's subject
+		subject := ""
+		for deadline := time.Now().Add(time.Second); subject == "" && time.Now().Before(deadline); time.Sleep(200 * time.Microsecond) {
+			for _, m := range hs.conn.Pubs()[from:] {
+				if m.Subject == "event.test.items.query" {
+					var p struct {
+						Subject string `json:"subject"`
+					}
+					json.Unmarshal(m.Data, &p)
+					subject = p.Subject
+				}
+			}
+		}
+		problems := []string{}
+		if subject == "" {
+			problems = append(problems, "no query event was published for a change of the query store")
+		}
+		for fi, f := range forms {
+			if subject == "" {
+				break
+			}
+			inbox := fmt.Sprintf("inbox.el%d_%d_%d", h, step, fi)
+			payload, _ := json.Marshal(map[string]string{"query": f})
+			hs.conn.Deliver(subject, inbox, payload)
+			var data []byte
+			for deadline := time.Now().Add(time.Second); data == nil && time.Now().Before(deadline); time.Sleep(200 * time.Microsecond) {
+				if ms := hs.conn.PubsOn(inbox); len(ms) > 0 {
+					data = ms[0].Data
+				}
+			}
+			var resp struct {
+				Result *struct {
+					Events []struct {
+						Event string `json:"event"`
+						Data  struct {
+							Idx   int `json:"idx"`
+							Value struct {
+								RID string `json:"rid"`
+							} `json:"value"`
+						} `json:"data"`
+					} `json:"events"`
+					Collection []struct {
+						RID string `json:"rid"`
+					} `json:"collection"`
+				} `json:"result"`
+				Error *struct {
+					Code string `json:"code"`
+				} `json:"error"`
+			}
+			if data == nil || json.Unmarshal(data, &resp) != nil || resp.Result == nil {
+				problems = append(problems, fmt.Sprintf("query request %q on the query event's subject was answered with %s", f, data))
+				continue
+			}
+			cur := held[f]
+			if resp.Result.Collection != nil {
+				cur = []string{}
+				for _, e := range resp.Result.Collection {
+					cur = append(cur, e.RID)
+				}
+			}
+			for _, e := range resp.Result.Events {
+				switch e.Event {
+				case "add":
+					if e.Data.Idx < 0 || e.Data.Idx > len(cur) {
+						problems = append(problems, fmt.Sprintf("query %q: add index %d out of range", f, e.Data.Idx))
+						continue
+					}
+					cur = append(cur[:e.Data.Idx], append([]string{e.Data.Value.RID}, cur[e.Data.Idx:]...)...)
+				case "remove":
+					if e.Data.Idx < 0 || e.Data.Idx >= len(cur) {
+						problems = append(problems, fmt.Sprintf("query %q: remove index %d out of range", f, e.Data.Idx))
+						continue
+					}
+					cur = append(cur[:e.Data.Idx], cur[e.Data.Idx+1:]...)
+				}
+			}
+			held[f] = cur
+		}
+		for _, f := range forms {
+			r, err := hs.get("test.items?" + f)
+			if err != nil {
+				continue
+			}
+			if fresh := refs(r); fmt.Sprint(fresh) != fmt.Sprint(held[f]) {
+				problems = append(problems, fmt.Sprintf("client of query %q holds %v after applying what it was given, a fresh get returns %v", f, held[f], fresh))
+				held[f] = fresh
+			}
+		}
+		out = append(out, rec{"kind": "callbacks", "problems": problems, "dbg": fmt.Sprintf("event-list history %d step %d", h, step)})
+		time.Sleep(35 * time.Millisecond) // let the query event expire
 	}
 	return out
 }
